@@ -24,7 +24,7 @@ PROP = dict(
          "accepted and the grid has >= 4 cells; distinct = distinct hash of (family, pillars, corner depths, map, ACTNUM).",
     stages=[
         dict(harness="c13_grid", flavour="plain", cases={Q: 12000, T: 250000}, timeout={Q: 900, T: 7200},
-             env={"OMP_WAIT_POLICY": "passive"}, args=["tops_gaps=0", "reader_order_probe=0"]),  # TEMPORARY-FILTER
+             env={"OMP_WAIT_POLICY": "passive"}),
         dict(id="c13_grid_tsan", harness="c13_grid", flavour="tsan", cases={Q: 1500, T: 30000}, timeout={Q: 900, T: 7200},
              args=["mode=threads"], env={"OMP_WAIT_POLICY": "passive", "KMP_BLOCKTIME": "0"}),
     ],
